@@ -16,6 +16,7 @@ func VerifC12Crash() {
 	pre := verifParam("pre", 2)
 	post := verifParam("post", 2)
 	h := newHist(1000)
+	h.setupState()
 	for s := 0; s < pre; s++ {
 		if pick(fmt.Sprintf("op%d", s), 2) == 0 {
 			h.submit()
